@@ -6,8 +6,11 @@ Derived solids with an exactly known shape (harness c03_derived.go): model3d.Pro
 model3d/model2d.SDFToSolid(Rect, outset) = open / rounded / smaller box; model3d.RevolveSolid(Rect, integer axis) =
 annular cylinder; model3d.CrossSectionSolid(Rect / Sphere) = 2D rect / circle; model3d/model2d.NewColliderSolidInset
 (Rect or its mesh collider, inset > 0 / < 0) = smaller / rounded box; model3d/model2d.NewColliderSolidHollow = shell
-around the box surface; model3d/model2d.CheckedFuncSolid(min, max, f) = box intersected with f.  Probes exactly on the
-boundary of the true shape are not decided."""
+around the box surface; model3d/model2d.CheckedFuncSolid(min, max, f) = box intersected with f.  Wrappers around a box:
+model3d/model2d.TranslateSolid, ScaleSolid, RotateSolid (quarter turns), VecScaleSolid (negative components) = the image
+box; toolbox3d.ClampAxisMax/Min and ClampXMax..ClampZMin of a Rect / Sphere = box / ball cut at the plane;
+model3d/model2d.FuncSolid (invalid bounds must panic); toolbox3d.RadialCurve = cylinder / cone over a straight curve, the
+points within r of a closed square loop.  Probes exactly on the boundary of the true shape are not decided."""
 import solids
 
 CLAUSES = {"panic", "bounds", "leak", "cut"}
